@@ -130,7 +130,9 @@ theorem opUnref_noZombie {cur : Replica} (h : NoZombie cur) (d : Defects) (right
   · exact ⟨h, rfl⟩
   · simp only
     split
-    · exact ⟨noZombie_congr h (fun x hx => mem_replaceNode hx) rfl, rfl⟩
+    · split
+      · exact ⟨noZombie_congr h (fun x hx => mem_replaceNode hx) rfl, rfl⟩
+      · exact ⟨h, rfl⟩
     · split
       · exact ⟨h, rfl⟩
       · exact ⟨noZombie_congr h (fun x hx => mem_replaceNode hx) rfl, rfl⟩
